@@ -17,7 +17,7 @@ def generate(rng, i):
         # chain stands for at execution time, and every other member is closed
         from tesim.props import c11
         for _ in range(6):
-            sc = c11.generate(rng, i)
+            sc = c11.generate_single(rng, i)
             if not sc.get("construct_only") and sc["envs"][0]["space"].get("margin", 0.0) == 0.0:
                 sc["chain_world"] = True
                 return sc
